@@ -43,6 +43,12 @@ public:
   enum crossover_t {one_point, two_points, tree, uniform, NUM_CROSSOVERS};
 
   friend i_mep crossover(const i_mep &, const i_mep &);
+
+#if defined(VITA_VERIF)
+  /// Verification hook (H2): read / force the active crossover flavour.
+  crossover_t verif_crossover() const { return active_crossover_type_; }
+  void verif_crossover(crossover_t t) { active_crossover_type_ = t; }
+#endif
   unsigned mutation(double, const problem &);
 
   // ---- Working with blocks / genome ----
